@@ -74,7 +74,11 @@ def shared_dag_menu(cols, roles, depth, hist):
     step 1 derives columns, step 2 narrows one path, step 3 joins / stacks it with the same step-1 object narrowed differently"""
     K, N = menus._pick(cols, roles)
     if depth == 0:
+        # a join whose left key y is matched to the right column x while the left table has a data column x too
+        e5 = {"table": "e", "steps": [{"op": "rename_columns", "map": {"x": "w"}}]}
         return [
+            {"op": "natural_join", "b": e5, "on": [["y", "x"]], "jointype": "LEFT"},
+            {"op": "natural_join", "b": e5, "on": [["y", "x"]], "jointype": "INNER"},
             {"op": "extend", "ops": {"z": O("+", C("x"), V(1))}},
             {"op": "extend", "ops": {"z": O("*", C("x"), C("y"))}},
             {"op": "extend", "ops": {"x": O("+", C("x"), V(1)), "z": O("*", C("y"), V(2))}},
